@@ -3,7 +3,7 @@
 # Confirms a seeded change in a fresh scratch worktree: build ok, suite ok (except TestGenerateDocs), demo passes
 # without the patch and fails with it. On success stores it as /verif/seeded/<target-id>/.
 set -u
-export GOFLAGS=-mod=mod GOPROXY=off GOSUMDB=off GOTOOLCHAIN=local GOWORK=off
+export GOFLAGS=-mod=mod GOPROXY=off GOSUMDB=off GOTOOLCHAIN=local GOWORK=off PATH=$PATH:/root/miniconda/bin  # msgmerge (utils/po TestLibrary) lives there
 OUT="$1"; L="$2"; ID="$3"
 WT=$(mktemp -d /tmp/confirm.XXXXXX)
 git -C /repo worktree add -q --detach "$WT/wt" HEAD || exit 2
